@@ -72,7 +72,7 @@ def corpus() -> list[dict]:
 
 def run(tier: str, seed: int, rep: Report, model: Model) -> dict:
     rnd = rng_for("C08", seed)
-    n = depth(tier, 1400, 14000)
+    n = depth(tier, 1400, 40000)
     rep.rule = ("conforming contexts with exactly one perturbation (report compared field by field) or several (verdict, exception type, "
                 "factuality of the report); distinct = distinct case; non-trivial = the implementation rejected")
     cases, exact = [], []
@@ -96,7 +96,7 @@ def run(tier: str, seed: int, rep: Report, model: Model) -> dict:
             exact.append(False)
     # directed: an axis with two demanded values (a named expression whose name is already bound), every single resize
     nreb = 0
-    for base in GC.rebound_cases(rnd, depth(tier, 25, 250)):
+    for base in GC.rebound_cases(rnd, depth(tier, 25, 600)):
         for c in GC.all_resizes(base):
             cases.append(c)
             exact.append(True)
